@@ -28,7 +28,7 @@ ASSUMPTIONS = ['a compound assignment inside an ast_names body that mutates a sh
 REAL = ['smartquery.*']
 STUB = ['host callbacks call / attempt / t / boom']
 REACH_PROBES = ('second_names_mapping', 'parse_failure_between_evals', 'body_raised', 'host_swallow', 'budget_abort_in_lambda', 'shadow_builtin', 'shadow_host', 'recursion',
-                'cross_eval_lambda', 'ast_names_body', 'failed_then_judged', 'depth_checked', 'hof_driver')
+                'cross_eval_lambda', 'ast_names_body', 'failed_then_judged', 'depth_checked', 'hof_driver', 'same_source_other_mapping')
 
 POOL = ['x', 'y', 'v', 'len', 'max', 'acc']
 HOFS = ['map', 'filter', 'reduce', 'sorted']
@@ -38,7 +38,14 @@ def _world(r):
     names = {}
     for nm in r.sample(POOL, r.randint(1, 4)):
         names[nm] = r.choice([{'d': '10'}, {'d': '3'}, 'host-' + nm, [1, 2], 7, None, 0, ''])
-    return {'names': names, 'host_fns': ['t', 'boom', 'call', 'attempt']}
+    w = {'names': names, 'host_fns': ['t', 'boom', 'call', 'attempt']}
+    if r.random() < 0.3:
+        w['cache'] = r.choice([{'kind': 'dict'}, {'kind': 'lru', 'bound': 2}])       # the parser caches parsed trees
+    if r.random() < 0.12:
+        w['names_kind'] = r.choice(['defaultdict', 'counter', 'ordered'])
+    if r.random() < 0.15:
+        w['thread_hop'] = True
+    return w
 
 
 class G:
@@ -263,6 +270,13 @@ def generate(seed, tier):
         out = _apply_model(model, op)
         if out[0] == 'unspec':
             break
+        if 'ast_names' in op and len(models) > 1 and ro.random() < 0.5:
+            # the very same text again, for the OTHER names mapping and without the helper: whatever the first call
+            # bound belongs to the first mapping only
+            op2 = {'op': 'eval', 'space': 1 - si, 'prog': prog, 'style': op['style'], 'kinds': ['same_source_other_mapping']}
+            ops.append(op2)
+            if _apply_model(models[1 - si], op2)[0] == 'unspec':
+                break
     return {'world': world, 'ops': ops}
 
 
